@@ -30,6 +30,7 @@ func (s *Sched) loadTick(c chan time.Time, ticker bool) {
 	rc := (<-chan time.Time)(c)
 	cs := s.chanOf(*(*uintptr)(unsafe.Pointer(&rc)), rc, 1)
 	cs.ticker = ticker
+	cs.timer = true
 	if len(cs.buf) == 0 {
 		it := item{val: fakeNow}
 		if s.opt.Clocks && s.cur != nil {
